@@ -13,6 +13,7 @@ import (
 	"fmt"
 	"strconv"
 	"strings"
+	"sync"
 
 	"go.minekube.com/gate/pkg/edition/bedrock/geyser/floodgate"
 
@@ -272,7 +273,7 @@ func main() {
 	rng := lib.NewRng(f.Seed)
 	out := lib.NewOut("C39", f)
 	out.Imports = "From Verif Require Import Model.Floodgate.\n"
-	out.Rule = "reference-encoded hostnames for random keys (16/24/32 bytes), nonces and field values (gamertags with spaces and non-ASCII text, XUIDs incl. int64 extremes, numeric fields in and out of range, empty strings), the same under another key, with a :port suffix, with non-numeric or empty required fields; every single-byte replacement (3 replacement bytes per position: low bit flipped, another base64 letter, one of NUL ! : = LF A) of one encoding per key size; structural mutations (no/extra NUL part, no splitter, truncated, nonce of 0/3/9/15/16 bytes, ciphertext shorter than the tag, header altered, padding removed, CR/LF inserted, last base64 letter replaced by its slack twin); WriteHostname outputs decoded by the reference decoder. distinct = distinct (key, hostname / data); non-trivial = the hostname reaches the cipher (header, splitter and both base64 parts parse) or is a write case"
+	out.Rule = "reference-encoded hostnames for random keys (16/24/32 bytes), nonces and field values (gamertags with spaces and non-ASCII text, XUIDs incl. int64 extremes, numeric fields in and out of range, empty strings), the same under another key, with a :port suffix, with non-numeric or empty required fields; every single-byte replacement (3 replacement bytes per position: low bit flipped, another base64 letter, one of NUL ! : = LF A) of one encoding per key size; structural mutations (no/extra NUL part, no splitter, truncated, nonce of 0/3/9/15/16 bytes, ciphertext shorter than the tag, header altered, padding removed, CR/LF inserted, last base64 letter replaced by its slack twin); WriteHostname outputs decoded by the reference decoder; 8 goroutines x 1500 (quick) WriteHostname calls on ONE Floodgate instance per key size, every output read back by the reference decoder, nonces compared pairwise (summary case + first failing output). distinct = distinct (key, hostname / data); non-trivial = the hostname reaches the cipher (header, splitter and both base64 parts parse) or is a write case"
 
 	g := gen{rng}
 	emitRead := func(key []byte, hostname string, org *origin, mustReject bool, kind string) {
@@ -475,6 +476,103 @@ func main() {
 		}
 		out.Add(lib.App("CWrite", bb(key), lib.Str(host), d.coq(), bb(iv), stab, otab, refT, lib.Some(bb([]byte(got)))),
 			desc, true, "dir=write", "result=ok", fmt.Sprintf("keylen=%d", len(key)))
+	}
+	// 6. concurrent encodes on ONE Floodgate instance per key size (the proxy shares one instance between
+	// all connections): every output must read back, with the reference decoder, to the fields that were
+	// encoded, and no nonce may be emitted twice. Only a summary and the first failing output become a case.
+	perG := f.Count(1500)
+	for _, kl := range []int{16, 24, 32} {
+		key := g.r.Bytes(kl)
+		base := g.data(false)
+		base.verify, base.device, base.ui, base.input = "4711", 7, 0, 1
+		if base.xuid == 0 {
+			base.xuid = 1
+		}
+		fg, err := floodgate.NewFloodgate(key)
+		if err != nil {
+			panic(err)
+		}
+		const workers = 8
+		type failure struct {
+			host, out string
+			d         bd
+			panicMsg  string
+		}
+		var mu sync.Mutex
+		var first *failure
+		decoded := 0
+		nonces := map[[12]byte]struct{}{}
+		var wg sync.WaitGroup
+		for w := 0; w < workers; w++ {
+			wg.Add(1)
+			go func(w int) {
+				defer wg.Done()
+				okLocal := 0
+				var ivs [][12]byte
+				var myFirst *failure
+				for i := 0; i < perG; i++ {
+					d := base
+					d.username = fmt.Sprintf("P%d_%d", w, i)
+					d.xuid = base.xuid/2 + int64(w)*1_000_000 + int64(i) + 1
+					d.proxy = i%2 == 0
+					host := fmt.Sprintf("h%d.example:%d", w, 19000+i%100)
+					var got string
+					var werr error
+					pm := func() (p any) {
+						defer func() { p = recover() }()
+						got, werr = fg.WriteHostname(host, d.gate())
+						return nil
+					}()
+					good := false
+					if pm == nil && werr == nil {
+						if ref, ok := refDecode(key, got); ok && ref.host == host && strings.Join(ref.fields, "\x00") == strings.Join(d.fields(), "\x00") {
+							good = true
+							var iv [12]byte
+							copy(iv[:], ref.iv)
+							ivs = append(ivs, iv)
+						}
+					}
+					if good {
+						okLocal++
+					} else if myFirst == nil {
+						myFirst = &failure{host: host, out: got, d: d}
+						if pm != nil {
+							myFirst.panicMsg = fmt.Sprint(pm)
+						}
+					}
+				}
+				mu.Lock()
+				decoded += okLocal
+				for _, iv := range ivs {
+					nonces[iv] = struct{}{}
+				}
+				if myFirst != nil && (first == nil || myFirst.host < first.host) {
+					first = myFirst
+				}
+				mu.Unlock()
+			}(w)
+		}
+		wg.Wait()
+		total := workers * perG
+		desc := map[string]any{"dir": "write-concurrent", "keylen": kl, "key_hex": fmt.Sprintf("%x", key), "goroutines": workers, "encodes": total, "decoded_to_same_fields": decoded, "distinct_nonces": len(nonces)}
+		failT := "None"
+		if first != nil {
+			otab := "[]"
+			if eiv, ect, ok := envelopeOf(first.out); ok && len(eiv) == 12 {
+				p, err := gcmFor(key).Open(nil, eiv, ect, nil)
+				otab = lib.List([]string{fmt.Sprintf("(%s, %s, %s)", bb(eiv), bb(ect), lib.Opt(err == nil, bb(p)))})
+			}
+			failT = lib.Some(fmt.Sprintf("(%s, %s, %s, %s, %s)", bb(key), lib.Str(first.host), first.d.coq(), bb([]byte(first.out)), otab))
+			desc["first_failing_output_hex"] = fmt.Sprintf("%x", first.out)
+			desc["first_failing_host"] = first.host
+			desc["first_failing_fields"] = first.d.fields()
+			if first.panicMsg != "" {
+				desc["panic"] = first.panicMsg
+			}
+		}
+		out.Add(lib.App("CConc", lib.N(uint64(kl)), lib.N(uint64(total)), lib.N(uint64(decoded)), lib.N(uint64(len(nonces))), failT),
+			desc, true, "dir=write-concurrent", fmt.Sprintf("keylen=%d", kl))
+		out.Tag(fmt.Sprintf("concurrent-encodes=%d", total))
 	}
 	out.Finish()
 }
